@@ -84,7 +84,10 @@ def c15_2(ctx, r):
         r.check(ok, "--stage-num = cluster.config.pipeline_stage_num + 1", key_of(fn, "stage-num value"), s.loc, f"--stage-num is `{ctx.src(sn) if sn is not None else None}`",
                 "stage k+1 ... after stage k")
         rc = opts.get("--return-code")
-        r.check(rc is not None and ctx.src(rc) == "result.value", "--return-code = result.value", key_of(fn, "return-code value"), s.loc, f"--return-code is `{ctx.src(rc) if rc is not None else None}`",
+        from .common import completion_roles
+
+        _h, RESULT, _m = completion_roles(ctx, "C15.2")
+        r.check(rc is not None and ctx.src(rc) == f"{RESULT}.value", "--return-code = result.value", key_of(fn, "return-code value"), s.loc, f"--return-code is `{ctx.src(rc) if rc is not None else None}`",
                 "per-stage return codes match what happened")
         arg = opts.get("ARG")
         okd = False
@@ -144,7 +147,11 @@ def c15_3(ctx, r):
     okf = bool(asserts) and all(("return_code is None", True) in guard_forms(ctx, fn, n) for n in asserts)
     r.check(okf, "without a return code only stage 1 may be requested (assert)", key_of(fn, "first stage assert"), fn.loc(), "the first-stage path no longer asserts stage_num == 1", "stage k+1 ... only after stage k")
     # the stage that is configured and submitted
-    stg = [n for n in cfg.nodes if n.kind == "stmt" and isinstance(n.ast, ast.Assign) and ctx.src(n.ast.targets[0]) == "stage"]
+    STAGE = None
+    for c in iter_own(fn.node):
+        if isinstance(c, ast.Call) and ctx.src(c.func).split(".")[-1] == "create_config_from_file" and c.args and isinstance(c.args[0], ast.Attribute) and c.args[0].attr == "config_file" and isinstance(c.args[0].value, ast.Name):
+            STAGE = c.args[0].value.id
+    stg = [n for n in cfg.nodes if n.kind == "stmt" and isinstance(n.ast, ast.Assign) and STAGE and ctx.src(n.ast.targets[0]) == STAGE]
     oks = len(stg) == 1 and render(ctx, fn, stg[0].ast.value) == "<PipelineConfig.stages>[(<PipelineConfig.stage_num> - 1)]"
     r.check(oks, "the stage run is stages[persisted stage_num - 1]", key_of(fn, "stage index"), fn.loc(), f"stage selected by `{ctx.src(stg[0].ast.value) if stg else None}`: indexing by the command-line argument lets a stale trigger run an arbitrary stage",
             "the recorded current stage ... match what happened")
@@ -158,7 +165,7 @@ def c15_3(ctx, r):
         if isinstance(c, ast.Name):
             for n in ctx.nodes_of(fn, s.node):
                 defs = {ctx.src(ctx.rd(fn).defs_at[d].get(c.id)) for d in ctx.rd(fn).reaching(n, c.id) if isinstance(ctx.rd(fn).defs_at[d].get(c.id), ast.AST)}
-                okc = defs == {"create_config_from_file(stage.config_file)"}
+                okc = STAGE is not None and defs == {f"create_config_from_file({STAGE}.config_file)"}
         r.check(okc, "the configuration submitted is the selected stage's", key_of(fn, "stage config"), s.loc, "the submitted configuration is not loaded from stage.config_file")
         o = ctx.arg_for(s, rsj, "output")
         oko = False
@@ -249,8 +256,11 @@ def c15_6(ctx, r):
 def c15_7(ctx, r):
     hc = ctx.fn("JobSubmitter._handle_completion", "C15.7")
     cfg = ctx.cfg(hc)
-    errs = [n for n in cfg.nodes if n.kind == "stmt" and isinstance(n.ast, ast.Assign) and ctx.src(n.ast.targets[0]) == "result" and ctx.src(n.ast.value) == "Status.ERROR"]
-    miss = [n for n in cfg.nodes if n.kind == "stmt" and isinstance(n.ast, ast.Assign) and ctx.src(n.ast.targets[0]) == "missing_jobs" and not (isinstance(n.ast.value, ast.List) and not n.ast.value.elts)]
+    from .common import completion_roles
+
+    _h, RESULT, MISSING = completion_roles(ctx, "C15.7")
+    errs = [n for n in cfg.nodes if n.kind == "stmt" and isinstance(n.ast, ast.Assign) and ctx.src(n.ast.targets[0]) == RESULT and ctx.src(n.ast.value) == "Status.ERROR"]
+    miss = [n for n in cfg.nodes if n.kind == "stmt" and isinstance(n.ast, ast.Assign) and ctx.src(n.ast.targets[0]) == MISSING and not (isinstance(n.ast.value, ast.List) and not n.ast.value.elts)]
     if not miss:
         raise AnalysisError("C15.7", "missing-jobs computation not found in _handle_completion")
     from ..lib import always_followed_by
@@ -262,10 +272,10 @@ def c15_7(ctx, r):
                 "on the branch that finds missing jobs the completion status stays GOOD: the pipeline records return code 0 for a stage whose jobs did not all finish",
                 "the recorded ... per-stage return codes match what happened")
     # result starts as GOOD and is what the trigger sends / the function returns
-    init = [n for n in cfg.nodes if n.kind == "stmt" and isinstance(n.ast, ast.Assign) and ctx.src(n.ast.targets[0]) == "result"]
+    init = [n for n in cfg.nodes if n.kind == "stmt" and isinstance(n.ast, ast.Assign) and ctx.src(n.ast.targets[0]) == RESULT]
     r.check({ctx.src(n.ast.value) for n in init} == {"Status.GOOD", "Status.ERROR"}, "result is GOOD unless jobs are missing", key_of(hc, "result values"), hc.loc(), f"result takes {sorted({ctx.src(n.ast.value) for n in init})}")
     rets = [n for n in cfg.nodes if n.kind == "stmt" and isinstance(n.ast, ast.Return)]
-    r.check(all(ctx.src(n.ast.value) == "result" for n in rets), "_handle_completion returns that status", key_of(hc, "return"), hc.loc(), "return value changed")
+    r.check(all(ctx.src(n.ast.value) == RESULT for n in rets), "_handle_completion returns that status", key_of(hc, "return"), hc.loc(), "return value changed")
 
 
 @rule(P, "C15.8", "T2+T8", "auto-config: the stale stage config is removed before the generator runs, and that same file is what is checked and copied", min_obligations=3)
@@ -324,3 +334,30 @@ def c15_9(ctx, r):
         r.check(c.id not in seen, "PipelineManager.create only on a fresh (absent or just wiped) output directory", key_of(fn, "create on an existing pipeline directory"), fn.loc(c.stmt),
                 "PipelineManager.create is reachable with the output directory existing and not wiped: a repeated `jade pipeline submit` resets pipeline.json to stage 1 and submits every stage again",
                 "each stage is submitted exactly once")
+
+
+@rule(P, "C15.10", "T2", "the stage id exported to the auto-config script is read after the recorded stage advanced, in the function that runs the generator", min_obligations=1)
+def c15_10(ctx, r):
+    """`JADE_PIPELINE_STAGE_ID = str(<persisted stage>)` must see the stage that is about to be configured: the store and the
+    stage increment are in one function and the increment dominates-or-is-unreachable-after the store.  Exported by a caller
+    before the increment ran, every stage after the first is configured as its predecessor."""
+    pm = ctx.cls(PM, "C15.10")
+    stores = []
+    for m in pm.methods.values():
+        for n in ctx.cfg(m).nodes:
+            a = n.ast
+            if n.kind == "stmt" and isinstance(a, ast.Assign) and isinstance(a.targets[0], ast.Subscript) and ctx.src(a.targets[0].value) == "os.environ" and isinstance(a.targets[0].slice, ast.Constant) and a.targets[0].slice.value == "JADE_PIPELINE_STAGE_ID":
+                stores.append((m, n))
+    if not stores:
+        r.bad(key_of(pm.methods["_submit_next_stage"], "stage id never exported"), pm.methods["_submit_next_stage"].loc(), "JADE_PIPELINE_STAGE_ID is never set: auto-config scripts cannot tell which stage to configure",
+              "stage k+1 is configured ... only after stage k")
+        return
+    inc_fns = {m.qual for m in pm.methods.values() if any(isinstance(x, ast.AugAssign) and ctx.src(x.target).endswith("stage_num") for x in iter_own(m.node))}
+    for m, n in stores:
+        cfg = ctx.cfg(m)
+        after = reachable_from(ctx, m, n, NORMAL_KINDS)
+        later_inc = [x for x in cfg.nodes if x.id in after and ((x.kind == "stmt" and isinstance(x.ast, ast.AugAssign) and ctx.src(x.ast.target).endswith("stage_num")) or any(
+            (set(s.targets()) & inc_fns) or any(q in ctx.ix.functions and (ctx.cg.reachable_from(q) & inc_fns if hasattr(ctx.cg, "reachable_from") else False) for q in s.targets()) for s in ctx.cg.sites_in(m) if s.node in cfg.calls_at(x)))]
+        r.check(not later_inc and ctx.src(n.ast.value) == "str(self.stage_num)", "the exported stage id is the recorded stage, read after it advanced", key_of(m, "stage id exported before the stage advances"), m.loc(n.ast),
+                f"`{ctx.src(n.ast)}` in {m.short} is followed by the stage increment (directly or in a callee): the variable carries the previous stage's number, so an auto-config script keyed on it "
+                "configures stage k again as 'stage k+1' (stage k's jobs run twice, the last stage's never)", "stage k+1 is configured and submitted only after stage k's submission is complete, each stage is submitted exactly once")
